@@ -84,9 +84,44 @@ def install(nmfu):
             chain_ids = tuple(id(a) for a in chain)
             into_mode = bool(chain) and (Bs in accB)
             eff_chain = () if into_mode else chain_ids
+            # entry mode: the chained actions meet a first part whose own starting state is joined and a second part that can be passed
+            # through; nothing enters that state by a transition, so the actions sit on everything that leaves it: in front of the second
+            # part's starts, and on a fall-through (no error) to a fresh accepting state wherever neither part continues
+            start_pre = A_states[0] if False else None
+            entry_state = self.starting_state if (into_mode and mark_accept and any(q is self.starting_state for q in subs)
+                                                  and not isinstance(self.starting_state, nmfu.DFConditionPoint)) else None
             # C09: normal return => no one-byte conflict
             for q in subs:
                 post = table(nmfu, q)
+                if q is entry_state:
+                    acc_post = set(id(x) for x in self.accepting_states)
+                    if id(q) in acc_post:
+                        REC.fail("DFA.append_after/C01-entry-chain", "the joined starting state is still accepting: passing straight through it would skip the chained actions")
+                        return r
+                    for s in SY:
+                        a = A_beh[id(q)][s]
+                        bt = B_tab[s]
+                        n = beh(post[s])
+                        if a is not None and not a[2]:
+                            if bt is not None and not bt.error_handling and id(bt.target) != a[0]:
+                                REC.fail("DFA.append_after/C09-no-conflict", f"joined although on {symname(s)} the first part continues AND the second part starts: ambiguous program accepted silently", {"symbol": symname(s)})
+                                return r
+                            if n is None or n[0] != a[0] or n[2]:
+                                REC.fail("DFA.append_after/C01-A-continues", f"on {symname(s)} the first part's continuation was replaced ({a} -> {n})", {"symbol": symname(s)})
+                                return r
+                            continue
+                        if bt is not None and not bt.error_handling:
+                            want = (id(bt.target), bool(bt.is_fallthrough), False, chain_ids + tuple(id(x) for x in bt.actions))
+                            if n != want:
+                                REC.fail("DFA.append_after/C01-B-starts", f"on {symname(s)} the second part should start with the chained actions first: have {n}, want {want}", {"symbol": symname(s)})
+                                return r
+                            continue
+                        # neither part continues: fall through (no error) to an accepting state, the chained actions last
+                        if n is None or not n[1] or n[2] or n[0] not in acc_post or n[3][-len(chain_ids):] != chain_ids:
+                            REC.fail("DFA.append_after/C01-entry-chain", f"on {symname(s)} neither part continues: the chained actions must run on a fall-through to an accepting state: have {n}")
+                            return r
+                    REC.ok("DFA.append_after", 257)
+                    continue
                 ri_check(nmfu, q, "DFA.append_after/RI")
                 for s in SY:
                     a = A_beh[id(q)][s]
@@ -128,6 +163,11 @@ def install(nmfu):
             if into_mode and incoming_pre is not None:
                 for tid, (t, acts) in incoming_pre.items():
                     now = tuple(id(a) for a in t.actions)
+                    if entry_state is not None and t.target is entry_state:
+                        if now != acts:
+                            REC.fail("DFA.append_after/C01-chain-into-once", "a transition entering the joined starting state was given the chained actions although they run on the way out of that state")
+                            return r
+                        continue
                     if now != acts + chain_ids:
                         REC.fail("DFA.append_after/C01-chain-into-once", "chained actions are not exactly once at the end of a transition entering the joined states")
                         return r
@@ -141,7 +181,15 @@ def install(nmfu):
                 if Bs in accB:
                     want_acc += subs
                 want_acc += accB
-                if sorted(map(id, set(want_acc))) != sorted(map(id, set(self.accepting_states))):
+                have_acc = set(map(id, self.accepting_states))
+                if entry_state is not None:
+                    known = set(map(id, A_states)) | set(map(id, B_states_pre))
+                    fresh = [x for x in self.accepting_states if id(x) not in known]
+                    want_ids = set(map(id, want_acc)) - {id(entry_state)}
+                    if len(fresh) != 1 or have_acc - {id(fresh[0])} != want_ids or fresh[0].transitions:
+                        REC.fail("DFA.append_after/accepting-set", "entry mode: accepting set is not (acc(A) - joined) + acc(B) + joined-without-the-start + one fresh pass-through end state")
+                        return r
+                elif sorted(map(id, set(want_acc))) != sorted(map(id, set(self.accepting_states))):
                     REC.fail("DFA.append_after/accepting-set", "accepting set after the join is not (acc(A) - joined) + acc(B) [+ joined if B accepts the empty string]")
                     return r
             REC.ok("DFA.append_after", len(subs) * len(SY))
